@@ -142,7 +142,20 @@ def job_dask(P, C, D, N, chunks):
     P.run("dask", sc_dask, dict(C=C, D=D, N=N, chunks=chunks), validate=1)
 
 
+def sc_int_data(B, dtype):
+    """integer-typed features (e.g. 8-bit images): statistics are those of the same numbers as floats"""
+    import numpy as np
+
+    m, P = make_gmm(B, 2, 2, "matrix")
+    Xf = np.array([[200.0, 3.0], [17.0, 120.0], [90.0, 64.0], [255.0, 0.0]])
+    X = Xf.astype(dtype)
+    o = Outcome()
+    eq_stats(o, "integer-data", m.acc_stats(X), o_stats(B, P, Xf))
+    return o
+
+
 def job_boundary(P):
+    P.probe_real("integer-data", sc_int_data, [dict(dtype=d) for d in ("uint8", "int16", "int32", "float32")], tries=2)
     """witness search beyond the symbolic bound: the moments/additivity scenarios on the real code
     at row counts around every integer constant that occurs in the source"""
     from symexec import loader
